@@ -21,7 +21,22 @@ ASSUMPTIONS = ["std::random_device::_M_getval is the only entropy source of the 
                "Vegas accuracy clauses start at 100 calls (property quantifier: budgets 1e3..1e6); at the smallest accepted budget (2 calls) a constant 1 on "
                "[0,1]x[1,3] returns 0.68 instead of 2 - outside the quantifier, only outcome/containment/evaluation count are checked there",
                "the bin-index clamp of fix 66169b8 is not observable from outside (it needs a uniform deviate of exactly 0): detector = Lean obligation vegas_ia_range_unconditional"]
-TRUSTED = ["scipy.special.ndtr as reference for Gaussian integrals"]
+TRUSTED = ["scipy.special.ndtr as reference for Gaussian integrals",
+           "translators/constants.py (regenerates lean/LpModel/C14/Constants.lean from the anchored numeric literals of the current source before every lake build; a missing anchor falls back to the committed default and is recorded in notes.pre_build.anchor_missing)"]
+
+# ---------------------------------------------------------------------------------------------------
+# translator tie (DESIGN.md §4.5): MNPT, MNBS, PFAC, TINY, BIG, 2 (of 2*MNPT), dith of Miser / Integrate_MC_Miser and NDMX, MXDIM of
+# Integrate_MC_Vegas (src/Integration.cpp) are read from the source under check into lean/LpModel/C14/Constants.lean (namespace Lp.C14.K)
+# ---------------------------------------------------------------------------------------------------
+
+def pre_build(c):
+    """regenerate lean/LpModel/C14/Constants.lean from the repository under check (called by check.py with
+    the lake lock held, before `lake build`); a missing anchor is recorded, never an alarm"""
+    import importlib.util, os
+    spec = importlib.util.spec_from_file_location("lp_constants_tr", os.path.join(c["verif"], "translators", "constants.py"))
+    m = importlib.util.module_from_spec(spec)
+    spec.loader.exec_module(m)
+    return m.regenerate("C14", c["repo"], c["lean"])
 
 METHODS = ["Monte-Carlo", "Vegas", "Miser"]
 
